@@ -86,6 +86,34 @@ Definition validate_all (l : layout) (del : bool) (objs : list obj) : option (li
     Some (map (fun o => let s := validate_object o in (s, negb s && del)) objs)
   else None.
 
+(* ---- several buckets -------------------------------------------------------------------------
+   ValidateAll visits the buckets one after the other; per bucket it lists the CURRENT objects and
+   validates / deletes them; only the report counters are carried from bucket to bucket.
+   DeleteObject without a version id removes the object of an unversioned bucket and only puts a
+   delete marker on top of the versions of a versioning-enabled bucket. *)
+Record mbucket := { bvers : bool; bobjs : list obj }.
+Inductive post := Kept | Gone | Marker.
+Definition delete_effect (versioned : bool) : post := if versioned then Marker else Gone.
+Definition verdict (del versioned : bool) (o : obj) : bool * bool * post :=
+  let s := validate_object o in
+  let d := negb s && del in
+  (s, d, if d then delete_effect versioned else Kept).
+Definition validate_bucket (del : bool) (b : mbucket) : list (bool * bool * post) :=
+  map (verdict del (bvers b)) (bobjs b).
+Record counters := { c_total : nat; c_failed : nat; c_deleted : nat }.
+Definition count_true (l : list bool) : nat := length (filter (fun b => b) l).
+Definition add_counters (c : counters) (r : list (bool * bool * post)) : counters :=
+  {| c_total := c_total c + length r;
+     c_failed := c_failed c + count_true (map (fun x : bool * bool * post => negb (fst (fst x))) r);
+     c_deleted := c_deleted c + count_true (map (fun x : bool * bool * post => snd (fst x)) r) |}.
+Definition bucket_step (del : bool) (acc : counters * list (list (bool * bool * post))) (b : mbucket) :=
+  let r := validate_bucket del b in (add_counters (fst acc) r, snd acc ++ [r]).
+Definition validate_buckets (l : layout) (del : bool) (bs : list mbucket)
+  : option (counters * list (list (bool * bool * post))) :=
+  if find_part_store l then
+    Some (fold_left (bucket_step del) bs ({| c_total := 0; c_failed := 0; c_deleted := 0 |}, []))
+  else None.
+
 (* ---- how the storage records objects (what the harness builds) -------------------------------- *)
 (* the state of the part files: a content id (= part file, parts are deduplicated by content) that was
    modified maps to its new digest (Some) or to "file gone" (None) *)
@@ -129,8 +157,8 @@ Definition tamper (c : byte) (s : spec) : spec :=
 (* ---- line protocol (see harness/c39.go) ---- *)
 Definition dummy_spec : spec := put_spec 0.
 Definition ids_from (base : N) (offs : list N) : list N := map (fun o => (base + o)%N) offs.
-Definition kind_spec (sofar : list spec) (i : nat) (kind : bytes) : option spec :=
-  let base := (1000 * N.of_nat (S i))%N in
+Definition kind_spec (boff : N) (sofar : list spec) (i : nat) (kind : bytes) : option spec :=
+  let base := (boff + 1000 * N.of_nat (S i))%N in
   match kind with
   | [] => None
   | c :: rest =>
@@ -170,13 +198,20 @@ Fixpoint apply_faults (w : world) (ids : list N) (faults : bytes) : world :=
   | _, _ => w
   end.
 
+(* "<kind>+" = the key first got an older PutObject; its part is referenced by no current object *)
+Definition strip_plus (kd : bytes) : bytes * bool :=
+  match rev kd with
+  | c :: r => if beqb c "+"%byte then (rev r, true) else (kd, false)
+  | [] => (kd, false)
+  end.
+
 (* pass 1: specs (untampered, so that copies see the source as created); pass 2: faults and tampering *)
-Fixpoint build_specs (sofar : list spec) (i : nat) (ts : list bytes) : option (list spec) :=
+Fixpoint build_specs (boff : N) (sofar : list spec) (i : nat) (ts : list bytes) : option (list spec) :=
   match ts with
   | [] => Some sofar
   | t :: ts' => match split_on ":"%byte t with
-                | kd :: _ => match kind_spec sofar i kd with
-                             | Some s => build_specs (sofar ++ [s]) (S i) ts'
+                | kd :: _ => match kind_spec boff sofar i (fst (strip_plus kd)) with
+                             | Some s => build_specs boff (sofar ++ [s]) (S i) ts'
                              | None => None
                              end
                 | [] => None
@@ -186,31 +221,62 @@ Fixpoint faults_and_tampers (w : world) (specs : list spec) (ts : list bytes) : 
   match specs, ts with
   | s :: specs', t :: ts' =>
       let f := split_on ":"%byte t in
-      let w' := apply_faults w (sids s) (nth 1 f []) in
+      let fl := nth 1 f [] in
+      (* the older version's part file is unique to it: its fault letter concerns no current object *)
+      let fl' := if snd (strip_plus (nth 0 f [])) then tl fl else fl in
+      let w' := apply_faults w (sids s) fl' in
       let s' := match nth 2 f [] with c :: _ => tamper c s | [] => s end in
       let r := faults_and_tampers w' specs' ts' in
       (fst r, s' :: snd r)
   | _, _ => (w, [])
   end.
 
-Definition count_true (l : list bool) : nat := length (filter (fun b => b) l).
-Definition show_counts (rs : list (bool * bool)) : bytes :=
-  show_nat (length rs) ++ B"/" ++ show_nat (count_true (map (fun r : bool * bool => negb (fst r)) rs))
-  ++ B"/" ++ show_nat (count_true (map (fun r : bool * bool => snd r) rs)).
+(* a bucket token: "<u|v><letter>=<objects>" or just "<objects>" (one unversioned bucket) *)
+Definition parse_bucket (t : bytes) : bool * list bytes :=
+  match split_first "="%byte t with
+  | Some (pre, objs) => (match pre with c :: _ => beqb c "v"%byte | [] => false end, split_on ","%byte objs)
+  | None => (false, split_on ","%byte t)
+  end.
+(* pass 1 over all buckets, then pass 2 threading the world (part files are shared across buckets) *)
+Fixpoint build_all (b : nat) (bts : list (bool * list bytes)) : option (list (list spec)) :=
+  match bts with
+  | [] => Some []
+  | (_, ts) :: rest =>
+      match build_specs (100000 * N.of_nat (S b))%N [] 0 ts, build_all (S b) rest with
+      | Some s, Some r => Some (s :: r)
+      | _, _ => None
+      end
+  end.
+Fixpoint faults_all (w : world) (specs : list (list spec)) (bts : list (bool * list bytes)) : world * list (list spec) :=
+  match specs, bts with
+  | s :: specs', (_, ts) :: bts' =>
+      let r := faults_and_tampers w s ts in
+      let r' := faults_all (fst r) specs' bts' in
+      (fst r', snd r :: snd r')
+  | _, _ => (w, [])
+  end.
+
+Definition show_verdicts (r : list (bool * bool * post)) : bytes :=
+  map (fun x : bool * bool * post => if fst (fst x) then "-"%byte else if snd (fst x) then "D"%byte else "R"%byte) r.
+Definition show_posts (r : list (bool * bool * post)) : bytes :=
+  map (fun x : bool * bool * post => match snd x with Kept => "K"%byte | Gone => "G"%byte | Marker => "M"%byte end) r.
 
 Definition run_line (l : bytes) : bytes :=
   match tokens l with
   | [md; os] =>
-      let ts := split_on ","%byte os in
-      do specs <- build_specs [] 0 ts;
-      let ws := faults_and_tampers [] specs ts in
-      let objs := map (to_obj (fst ws)) (snd ws) in
+      let bts := map parse_bucket (split_on "/"%byte os) in
+      do specs <- build_all 0 bts;
+      let ws := faults_all [] specs bts in
+      let buckets := map (fun vb : (bool * list bytes) * list spec =>
+                            {| bvers := fst (fst vb); bobjs := map (to_obj (fst ws)) (snd vb) |})
+                         (combine bts (snd ws)) in
       let del := bytes_eqb md B"D" in
-      let va := match validate_all current_layout del objs with
-                | None => B"ERR"
-                | Some rs => map (fun r : bool * bool => if fst r then "-"%byte else if snd r then "D"%byte else "R"%byte) rs
-                             ++ B":" ++ show_counts rs
-                end in
-      va ++ B" | " ++ map (fun o => if validate_object o then "-"%byte else "R"%byte) objs
+      let pers := join B"/" (map (fun b => map (fun o => if validate_object o then "-"%byte else "R"%byte) (bobjs b)) buckets) in
+      match validate_buckets current_layout del buckets with
+      | None => B"ERR | " ++ join B"/" (map (fun b => map (fun _ => "K"%byte) (bobjs b)) buckets) ++ B" | " ++ pers
+      | Some (c, rs) =>
+          join B"/" (map show_verdicts rs) ++ B":" ++ show_nat (c_total c) ++ B"/" ++ show_nat (c_failed c)
+          ++ B"/" ++ show_nat (c_deleted c) ++ B" | " ++ join B"/" (map show_posts rs) ++ B" | " ++ pers
+      end
   | _ => parse_error
   end.
